@@ -384,6 +384,9 @@ func c16Cases(env *core.Env, rng *rand.Rand) []core.Case {
 			io("read-test", cmd, "first")
 			io("write-target", cmd, "first")
 		}
+		for _, cmd := range []string{"update-all", "compare-all", "format-all", "renumber-all", "copyright"} {
+			io("list-dir", cmd, "first")
+		}
 		io("read-conf", "copyright", "first")
 		io("write-target", "copyright", "last")
 	}
@@ -394,7 +397,7 @@ func init() {
 	register(&core.Property{
 		ID:    "C16",
 		Level: "fault_enumeration",
-		Rule: "fault catalogue, enumerated completely per tree: 12 source-level fault classes (missing include / exclude file, malformed entry (7 forms), unknown processor, unknown or missing cmdline type, end marker without start, start without end (3 forms), unknown stored name, store marker without name, unsupported flag, odd replacement list, flags in an include file) x positions (end of file, start of file, inside an assemble block, inside an included file) x commands (generate from file and stdin, update, compare in text and github mode, update/compare --all with the faulty file first/middle/last in walk order, format/format --check/format --all where the formatter can see the fault) plus 9 tree/argument faults (rule id not in the rules file, chain offset beyond the chain, no / two rules files for the prefix, operator that is not @rx, missing assembly file, malformed rule argument, invalid / missing version). Per tree also ~90 I/O faults: every read of one file (the include file, the assembly file, the rules file, a test file, a .conf file) fails with EIO, or every write to the file a command rewrites fails with ENOSPC (injected with strace -P <file> -e inject=...), for the single-target and --all forms with the poisoned unit first/middle/last: the command must not exit 0, generate must print nothing, a command that could not read must not have written, and a file that could not be read must not be rewritten; a case counts only if the log shows injected calls. Tiers differ only in the number of generated trees around the faults (2 vs 40). " +
+		Rule: "fault catalogue, enumerated completely per tree: 12 source-level fault classes (missing include / exclude file, malformed entry (7 forms), unknown processor, unknown or missing cmdline type, end marker without start, start without end (3 forms), unknown stored name, store marker without name, unsupported flag, odd replacement list, flags in an include file) x positions (end of file, start of file, inside an assemble block, inside an included file) x commands (generate from file and stdin, update, compare in text and github mode, update/compare --all with the faulty file first/middle/last in walk order, format/format --check/format --all where the formatter can see the fault) plus 9 tree/argument faults (rule id not in the rules file, chain offset beyond the chain, no / two rules files for the prefix, operator that is not @rx, missing assembly file, malformed rule argument, invalid / missing version). Per tree also ~90 I/O faults: every read of one file (the include file, the assembly file, the rules file, a test file, a .conf file) fails with EIO, or every write to the file a command rewrites fails with ENOSPC, or the directory an --all command walks cannot be listed (injected with strace -P <file> -e inject=...), for the single-target and --all forms with the poisoned unit first/middle/last: the command must not exit 0, generate must print nothing, a command that could not read must not have written, and a file that could not be read must not be rewritten; a case counts only if the log shows injected calls. Tiers differ only in the number of generated trees around the faults (2 vs 40). " +
 			"Oracle: exit status != 0; generate prints nothing; compare never says 'has not changed' for the faulty rule; the sandbox snapshot is unchanged for single-target commands; for --all the faulty unit is byte-identical, every other operand is either the old one or exactly generate's output, and no other line or file changes. Non-trivial = every injected fault.",
 		Cases:         c16Cases,
 		Check:         c16Check,
@@ -477,6 +480,23 @@ func c16IOCheck(env *core.Env, c *c16IO) core.Verdict {
 		poison = testRel
 	case "read-conf":
 		poison = ft.File.path()
+	case "list-dir":
+		// the directory a command walks cannot be listed: it must not pass for an empty one
+		call = "getdents64"
+		switch {
+		case strings.HasPrefix(c.Cmd, "renumber"):
+			if testRel == "" {
+				return core.Verdict{Status: core.Skipped}
+			}
+			poison = filepath.Dir(testRel)
+		case c.Cmd == "copyright":
+			poison = "rules"
+		default:
+			poison = core.Pick(rand.New(rand.NewSource(int64(len(targets)+idx))), "regex-assembly", "regex-assembly", "regex-assembly/include")
+			if poison == "regex-assembly/include" && !strings.HasPrefix(c.Cmd, "format") {
+				poison = "regex-assembly" // only the formatter has targets below include/
+			}
+		}
 	case "write-target":
 		call, errno = "write", "ENOSPC"
 		switch {
@@ -528,7 +548,7 @@ func c16IOCheck(env *core.Env, c *c16IO) core.Verdict {
 			return core.Viol("modifies-on-failure:io:"+c.Fault+":"+c.Cmd, "%s: exit %d but changed %v", what, r.Exit, d)
 		}
 	}
-	if call == "read" {
+	if call == "read" && c.Fault != "list-dir" {
 		if now, _ := sut.Read(root, poison); now != poisonBefore {
 			return core.Viol("rewrites-unreadable-file:io:"+c.Fault+":"+c.Cmd, "%s: the file that could not be read was rewritten (%d -> %d bytes)", what, len(poisonBefore), len(now))
 		}
